@@ -93,6 +93,7 @@ func Harness_C02_Alignment() {
 
 	// one goroutine per upstream; the harness releases one call at a time
 	goCh := []chan struct{}{make(chan struct{}), make(chan struct{})}
+	pauses := 0
 	next := []int{0, 0} // next message index to be *started*
 	done := []int{0, 0} // messages whose call returned
 	for s := range senders {
@@ -132,6 +133,12 @@ func Harness_C02_Alignment() {
 		goCh[s] <- struct{}{}
 		verif.Quiesce()
 		sampleTimers()
+		if pauses < verif.Param("PAUSES", 0) && verif.Choose("a-long-time-passes", 2) == 1 {
+			// a straggler: the next message is a long time coming (alignment must hold however long)
+			pauses++
+			verif.LongPause()
+			verif.Quiesce()
+		}
 	}
 	verif.Assert(done[0] == len(scripts[0]) && done[1] == len(scripts[1]), "every-call-returns")
 	// flush what is still batched
